@@ -123,8 +123,10 @@ package loader
 //@ ghost validated(*types.Project) bool
 //@ func validate
 //@   sets validated(p) := true
+//@   loop 1 invariant idx >= -1
 //@ func admitProcesses
 //@   requires validated-before-admission: validated(p)
+//@   loop 2 invariant idx >= -1
 // C13 / C16: the configuration-completing steps run before the templates are rendered - rendering snapshots the
 // process definition (OriginalConfig) that later scale-ups build replicas from, so what is added afterwards is
 // missing from replicas created at run time.
